@@ -677,3 +677,151 @@ def self_comparisons(fn, impure=None):
             if a == b and expr_has_input(a) and not expr_has_opaque(a):
                 out.append((s.get("ln"), r["op"], a))
     return out
+
+
+# ---------------------------------------------------------------------------------------------------------------------
+# must-derive: "on EVERY alternative definition the value is computed from a source" (greatest fixpoint over loops)
+
+_BRANCHING_HOF = {
+    # callee -> (argument indices that are returned as they are on some branch, closure argument indices whose RESULT is returned)
+    "core::option::Option::<T>::map_or": ((1,), (2,)),
+    "core::option::Option::<T>::map_or_else": ((), (1, 2)),
+    "core::option::Option::<T>::unwrap_or": ((0, 1), ()),
+    "core::option::Option::<T>::unwrap_or_else": ((0,), (1,)),
+    "core::option::Option::<T>::or": ((0, 1), ()),
+    "core::option::Option::<T>::or_else": ((0,), (1,)),
+    "core::result::Result::<T, E>::unwrap_or": ((0, 1), ()),
+    "core::result::Result::<T, E>::unwrap_or_else": ((0,), (1,)),
+    "core::result::Result::<T, E>::map_or": ((1,), (2,)),
+    "core::bool::<impl bool>::then": ((), (1,)),
+}
+
+
+def _all3(vals):
+    vals = list(vals)
+    if any(v is False for v in vals):
+        return False
+    if any(v is None for v in vals):
+        return None
+    return True
+
+
+def _any3(vals):
+    vals = list(vals)
+    if any(v is True for v in vals):
+        return True
+    if any(v is None for v in vals):
+        return None
+    return False
+
+
+def must_derive(F, fn, op, is_source, derived_roots=frozenset(), seen=None, depth=0):
+    """True  — on every alternative definition of `op` (every branch that may have produced it) the value is computed
+               from a place/call accepted by is_source(fn, kind, x) (kind 'place' → operand, 'call' → terminator);
+       False — some alternative is computed without any source;
+       None  — not decided (state built through `&mut`, recursion limit, indirect call).
+    Calls: a branching combinator (map_or, unwrap_or, …) derives only if each of its alternatives does; a workspace callee
+    derives if its return value does (parameters derive when the arguments do); any other call derives if some argument
+    (or captured value of a closure argument) does. derived_roots: locals of `fn` taken as derived (parameters of a
+    callee/closure whose arguments derive; ('up', i) for captured value i of a closure)."""
+    if seen is None:
+        seen = set()
+    if depth > 60:
+        return None
+    if not is_place(op):
+        return False
+    if is_source(fn, "place", op):
+        return True
+    l = op["l"]
+    if l == 1 and fn.get("kind") == "Closure":
+        for e in op["p"]:
+            if isinstance(e, list) and e[0] == "f" and e[1] == "<closure>":
+                return ("up", int(e[2])) in derived_roots
+        return False
+    if l in derived_roots:
+        return True
+    ds = defs(fn).get(l, [])
+    if 1 <= l <= fn["argc"] and not ds:
+        return False
+    key = (fn["id"], l)
+    if key in seen:
+        return True  # greatest fixpoint: the cyclic alternative is as derived as the others
+    seen = seen | {key}
+    if not ds:
+        ds = defs(fn).get(("p", l), [])
+        if not ds:
+            return None
+        return _any3(_def_derives(F, fn, d, is_source, derived_roots, seen, depth) for d in ds)
+    res = _all3(_def_derives(F, fn, d, is_source, derived_roots, seen, depth) for d in ds)
+    if res is False and l in mut_aliased(fn):
+        # the value may have been completed through a `&mut` borrow (extend, insert, …): look for such a call fed by a source
+        for bi, t in calls(fn):
+            borrowed = False
+            others = []
+            for a in t["args"]:
+                if is_place(a) and any(k == "local" and v == l or k == "arg" and v == l for k, v, p in trace(fn, a)) and a["l"] != l:
+                    borrowed = True
+                else:
+                    others.append(a)
+            if borrowed and _any3(must_derive(F, fn, a, is_source, derived_roots, seen, depth + 1) for a in others) is True:
+                return None  # completed in place somewhere: whether on every path is not decided here
+        return False
+    return res
+
+
+def _def_derives(F, fn, d, is_source, derived_roots, seen, depth):
+    if d[0] == "s":
+        r = d[3]["r"]
+        ops = r.get("o", [])
+        if not ops:
+            return False
+        return _any3(must_derive(F, fn, a, is_source, derived_roots, seen, depth + 1) for a in ops)
+    t = d[2]
+    if is_source(fn, "call", t):
+        return True
+    callee = t["callee"]
+    args = t["args"]
+    if callee is None:
+        return None
+    if callee in _BRANCHING_HOF:
+        plain, clos = _BRANCHING_HOF[callee]
+        payload = must_derive(F, fn, args[0], is_source, derived_roots, seen, depth + 1) if args else False
+        alts = []
+        for i in plain:
+            if i < len(args):
+                alts.append(must_derive(F, fn, args[i], is_source, derived_roots, seen, depth + 1))
+        for i in clos:
+            if i < len(args):
+                alts.append(_closure_result_derives(F, fn, args[i], payload is True, is_source, derived_roots, seen, depth))
+        return _all3(alts)
+    target = F.fns.get(t.get("res") or "") or F.fns.get(callee)
+    argv = [must_derive(F, fn, a, is_source, derived_roots, seen, depth + 1) for a in args]
+    if target is not None and target.get("bbs"):
+        roots = frozenset(i + 1 for i, v in enumerate(argv) if v is True)
+        inner = must_derive(F, target, {"l": 0, "p": []}, is_source, roots, seen, depth + 1)
+        if inner is True:
+            return True
+    return _any3(argv)
+
+
+def _closure_result_derives(F, fn, op, param_derived, is_source, derived_roots, seen, depth):
+    """does the value RETURNED by the closure held in `op` derive? (captured values derive as they do in `fn`)"""
+    if not is_place(op):
+        return None  # a plain fn item: not followed
+    out = []
+    for k, v, p in trace(fn, op):
+        if k != "agg":
+            return None
+        bi, si = v
+        rv = fn["bbs"][bi]["s"][si]["r"]
+        if rv.get("ak") != "closure" or rv["n"] not in F.fns:
+            return None
+        cfn = F.fns[rv["n"]]
+        roots = set()
+        for i, a in enumerate(rv.get("o", [])):
+            if must_derive(F, fn, a, is_source, derived_roots, seen, depth + 1) is True:
+                roots.add(("up", i))
+        if param_derived:
+            roots |= set(range(2, cfn["argc"] + 1))
+        out.append(must_derive(F, cfn, {"l": 0, "p": []}, is_source, frozenset(roots), seen, depth + 1))
+    return _all3(out) if out else None
